@@ -232,8 +232,10 @@ class RegisterObject(StdTemplate[GenericArg]):
     _global_offset_: int
     _parent_offset_: GenericArg.offset
 
-    _readable_: bool = True
-    _writable_: bool = True
+    # not annotated: annotated class members are treated as template
+    # parameters by std.Template and replaced in every specialization
+    _readable_ = True
+    _writable_ = True
 
     _cohdlstd_objhasconfig: bool = False
 
